@@ -104,6 +104,7 @@ structure InvDepth (b0 : Book) (b : Book) : Prop where
   par : ∀ j, ParentsParity b0 j → (b.nd j).depth % 2 = (b0.nd j).depth % 2
   pos : ∀ j, (b.nd j).depth = 0 ↔ (b0.nd j).depth = 0
   ge : ∀ j, j < b0.size → parentIds (b0.nd j) ≠ [] → ∃ p ∈ parentIds (b0.nd j), (b.nd p).depth + 1 ≤ (b.nd j).depth
+  same : ∀ j, parentIds (b0.nd j) = [] → (b.nd j).depth = (b0.nd j).depth
 
 theorem InvDepth.children {b0 b : Book} (h : InvDepth b0 b) (j : Nat) : (b.nd j).children = (b0.nd j).children := by
   have := congrArg Node.children (h.skel j); exact this
@@ -178,7 +179,13 @@ theorem specDepth :
         · exact ⟨p, hpi ▸ hp, h⟩
       have hpc := wf_parent b0 hwf i p hi hp
       have hQp : ParentsParity b0 p := hQ p hpc.1 (List.ne_nil_of_mem hpc.2)
-      refine ⟨by simp [hI.size], by simp [hI.pending], by simp [hI.costs], ?_, ?_, ?_, ?_, ?_⟩
+      refine ⟨by simp [hI.size], by simp [hI.pending], by simp [hI.costs], ?_, ?_, ?_, ?_, ?_, ?_⟩
+      rotate_right
+      · intro j hnil
+        by_cases hj : i = j
+        · subst hj
+          rw [hnil] at hp; simp at hp
+        · rw [nd_setDepth_ne _ _ _ _ hj]; exact hI.same j hnil
       · intro j
         by_cases hj : i = j
         · subst hj; rw [nd_setDepth_self _ _ _ his]; exact hI.skel i
